@@ -101,6 +101,29 @@ pub fn gen_line(r: &mut Rng) -> String {
             let mut ai = r.below(n as u64) as usize;
             if ai == oi && !r.chance(1, 30) { ai = (oi + 1) % n; }
             let mut offer = gen_offer(r, p.assets[oi].amount.u128());
+            // directed: an asset registered with MORE than 18 decimals (pool creation does not validate decimals): the quote
+            // path cannot represent it and must refuse — never answer
+            if ai != oi && r.chance(1, 16) {
+                let big = 19 + r.below(6) as u8;
+                let which = if r.chance(1, 2) { oi } else { ai };
+                let whole = 1_000 + r.below(1_000_000) as u128;
+                for k in 0..n {
+                    if k == which || r.chance(1, 4) { p.asset_decimals[k] = big; } else { p.asset_decimals[k] = [6u8, 18, 12][r.below(3) as usize]; }
+                    let dec = p.asset_decimals[k] as u32;
+                    p.assets[k].amount = Uint128::new(whole.saturating_mul(10u128.checked_pow(dec).unwrap_or(u128::MAX / 1_000_000_000)).min(u128::MAX / 4));
+                }
+                offer = (p.assets[oi].amount.u128() / [10_000u128, 100, 10][r.below(3) as usize]).max(1);
+            }
+            // directed (finding F-18): every asset with 18 decimals and SMALL reserves (10^7 … 10^16 units): the Decimal256 D
+            // solver has no guard digits there
+            if ai != oi && r.chance(1, 12) {
+                for k in 0..n { p.asset_decimals[k] = 18; }
+                let mag = 7 + r.below(10) as u32;
+                let base = 10u128.pow(mag) * (1 + r.below(9) as u128) + r.below(1_000_000) as u128;
+                for k in 0..n { p.assets[k].amount = Uint128::new(base * (100 + r.below(900) as u128) / 100); }
+                if let PoolType::StableSwap { .. } = p.pool_type { p.pool_type = PoolType::StableSwap { amp: [1u64, 1, 2, 10, 85][r.below(5) as usize] }; }
+                offer = (p.assets[oi].amount.u128() * [1u128, 10, 1000, 100_000][r.below(4) as usize] / 1_000_000).max(1);
+            }
             // directed: an off-peg pool (the ask asset plentiful, the offer asset scarce: 10:1 … 300:1 in whole tokens) whose
             // offer asset has MORE decimals than the ask asset, and an offer nominally around ONE smallest ask unit — worth
             // several ask units at the pool's marginal price (sub-unit trades must be priced by the invariant, not by the peg)
